@@ -825,15 +825,16 @@ def extra_c15_bounded(prop, tier, seed):
 
 def extra_c15_spans(prop, tier, seed):
     """Bounded stand-in (labelled, never counted) for the accepted-document half of C15: every span reachable
-    through Rule/Type/Type1/Type2/Group/GroupChoice/GroupEntry/Identifier of every accepted document
-    `a = <= n tokens out of 25>` (+3 tails) is inside the input on character boundaries, carries the line of its
+    through Rule/Type/Type1/Type2/Group/GroupChoice/GroupEntry/Identifier, member keys, occurrences, generic
+    parameters and arguments and operators of every accepted document `a = <= n tokens out of 25>` (+3 tails) and of
+    generated structurally rich documents in 5 layouts is inside the input on character boundaries, carries the line of its
     start, lies inside its parent, siblings are ordered; identifier spans cover exactly their text; rule spans
     start at the name."""
     n = '4' if tier == 'thorough' else '3'
     out, err = _replay(['u3b', 'find', n], timeout=3000)
     if out is None:
         raise engine.Undecided('replay-failed', err)
-    res = {'violations': [], 'bounded': [{'check': 'AST spans of accepted documents (real parser)', 'bound': '%s tokens out of 25, 3 tails' % n,
+    res = {'violations': [], 'bounded': [{'check': 'AST spans of accepted documents (real parser)', 'bound': '%s tokens out of 25, 3 tails; plus %s generated documents (replay u10b generator) x 5 layouts (as written, CRLF, comments with multi-byte characters, wide spacing, blank lines)' % (n, '6000' if n == '4' else '1500'),
                                           'documents': out.get('tried'), 'found': out.get('found')}]}
     if out.get('found'):
         res['violations'].append({
